@@ -373,3 +373,9 @@ def oracle(w: Any, params: Any) -> List[dict]:
 
 
 execute = std_execute(build, oracle)
+
+
+# wave h documentation (what was added to the enumeration; see DESIGN.md 11.0)
+_WAVE_H = "+ startup 'bogus_caught' (an unknown lifespan message is refused, the application catches that and carries on) x every shutdown program"
+RULE = RULE + " " + _WAVE_H
+BOUNDS_DOC = {k: v + " " + _WAVE_H for k, v in BOUNDS_DOC.items()}
